@@ -10,7 +10,7 @@ from ..e1 import engine, gen, oracles
 RULE = ("histories of 1-4 generated programs run one after another on the same thread WITHOUT resetting the scheduler, each with arbitrary failure points "
         "(task steps, items, raising and hard-failing flushes, failing lazy futures, contexts whose pause/resume raise, NonAsyncContext, a lowered "
         "MAX_TASK_STACK_SIZE), nested synchronous re-entry; after each program a fixed canary computation must behave as on a fresh scheduler. "
-        "non-trivial = a history with >= 2 failing computations of different failure kinds; distinct = distinct history JSON")
+        "non-trivial = a history with >= 2 failing computations of different failure kinds; distinct = distinct history JSON. Library tools occur as leaves, incl. a deduplicated body that re-enters itself from a failure handler.")
 ASSUMPTIONS = ["leftover *batches* are allowed (the statement speaks of tasks); the canary uses a batch kind of its own so orphan batches cannot change its groups",
                "the in-body active-task monitor is not consulted for computations run under a lowered MAX_TASK_STACK_SIZE (asynq resets the scheduler when the limit trips)"]
 
